@@ -1,6 +1,6 @@
 use crate::optimizer::PassAction;
 use boa_ast::{
-    Expression,
+    Expression, Spanned,
     expression::literal::LiteralKind,
     statement::{If, Statement},
     visitor::{VisitWith, Visitor},
@@ -80,10 +80,17 @@ impl DeadCodeElimination {
             return PassAction::Keep;
         };
 
+        // NOTE: The completion value of an `if` statement is `UpdateEmpty(stmtCompletion, undefined)`,
+        //       which scripts and `eval` can observe. The taken branch can only stand for the whole
+        //       statement if its own completion value is never empty, i.e. if it is an expression
+        //       statement; an eliminated statement leaves `undefined` behind.
         if cond_value {
             if let Some(alt) = if_stmt.else_node()
                 && Self::contains_hoisted_declarations(alt)
             {
+                return PassAction::Keep;
+            }
+            if !matches!(if_stmt.body(), Statement::Expression(_)) {
                 return PassAction::Keep;
             }
             PassAction::Replace(if_stmt.body().clone())
@@ -92,10 +99,20 @@ impl DeadCodeElimination {
                 return PassAction::Keep;
             }
             match if_stmt.else_node() {
-                Some(alt) => PassAction::Replace(alt.clone()),
-                None => PassAction::Replace(Statement::Empty),
+                Some(alt) if matches!(alt, Statement::Expression(_)) => {
+                    PassAction::Replace(alt.clone())
+                }
+                Some(_) => PassAction::Keep,
+                None => PassAction::Replace(Self::undefined_statement(if_stmt.cond())),
             }
         }
+    }
+
+    /// The statement `undefined;`, which has the completion value of an eliminated statement.
+    fn undefined_statement(at: &Expression) -> Statement {
+        Statement::Expression(
+            boa_ast::expression::literal::Literal::new(LiteralKind::Undefined, at.span()).into(),
+        )
     }
 
     pub(crate) fn try_eliminate_while(
@@ -109,7 +126,7 @@ impl DeadCodeElimination {
             if Self::contains_hoisted_declarations(while_loop.body()) {
                 return PassAction::Keep;
             }
-            return PassAction::Replace(Statement::Empty);
+            return PassAction::Replace(Self::undefined_statement(while_loop.condition()));
         }
 
         PassAction::Keep
@@ -137,7 +154,7 @@ impl DeadCodeElimination {
                 return PassAction::Keep;
             }
 
-            return PassAction::Replace(Statement::Empty);
+            return PassAction::Replace(Self::undefined_statement(condition));
         }
 
         PassAction::Keep
